@@ -68,6 +68,28 @@ Definition decode_op (s : str) : dep_op :=
   | _ => DApi
   end.
 
+Definition render_ores (o : option result) : str :=
+  match o with
+  | None => s2l "EXC:StopIteration"
+  | Some (Ok b) => bool_str b
+  | Some MesonErr => exc_meson
+  | Some OutOfFuel => s2l "FUEL"
+  end.
+Definition nonempty (s : str) : bool := match s with [] => false | _ => true end.
+Definition decode_call (s : str) : str * list str * str :=
+  match split_on 2 s with
+  | [k; c; f] => (k, filter nonempty (split_on 1 f), c)
+  | [k; c] => (k, [], c)
+  | _ => ([], [], [])
+  end.
+
+Fixpoint tagged (t : char) (args : list str) : list str :=
+  match args with
+  | [] => []
+  | (c :: r) :: rest => if c =? t then r :: tagged t rest else tagged t rest
+  | [] :: rest => tagged t rest
+  end.
+
 Definition cmp6 (a b : vec) : str :=
   concat (map bool_str [sv_cmp KLt a b; sv_cmp KLe a b; vec_eqb a b; negb (vec_eqb a b);
                         sv_cmp KGe a b; sv_cmp KGt a b]).
@@ -89,6 +111,22 @@ Definition run (fn : str) (args : list str) : str :=
     | _ => s2l "?" end
   else if str_eqb fn (s2l "sort") then
     join SEP1 (sort_desc args)
+  else if str_eqb fn (s2l "prepare") then
+    (* tagged args: d<base dep>  t<cond>\002<dep>\001<dep>..  h<host cfg line>  b<build cfg line>  c<h|b> *)
+    let base := tagged 100 args in
+    let targets := map (fun s => match split_on 2 s with
+                                 | [c; ds] => (c, filter nonempty (split_on 1 ds))
+                                 | [c] => (c, [])
+                                 | _ => ([], []) end) (tagged 116 args) in
+    let hd := dict_of (map split_cfg (tagged 104 args)) in
+    let bd := dict_of (map split_cfg (tagged 98 args)) in
+    let calls := map (fun s => str_eqb s (s2l "h")) (tagged 99 args) in
+    join SEP2 (map (fun o => match o with Some l => join SEP1 l | None => exc_meson end)
+                   (prepare_session targets (fun h => if h then hd else bd) (mkP base []) calls))
+  else if str_eqb fn (s2l "cfgsession") then
+    (* args: rustc cfg lines..., MARK, calls...; a call is key \002 condition \002 flags joined by \001 *)
+    let '(lines, calls) := split_mark args in
+    join SEP1 (map render_ores (gc_session (mkG lines []) (map decode_call calls)))
   else if str_eqb fn (s2l "depseq") then
     (* args: initial requirement, then operations "a"+version | "p" | "u"+requirement *)
     match args with
